@@ -276,7 +276,8 @@ fn run_program(ctx: &mut Ctx, prog: &[(usize, usize)], what: &dyn Fn() -> String
     });
     let live1 = ledger::live();
     if !r.is_panic() && live1 != live0 {
-        ctx.violation("c06/leak", || format!("{}: {} allocation(s) made while building are still live after builder, tags and result were dropped", what(), live1 - live0));
+        // not part of the property's statement (C16 states the allocation discipline of new_boxed): recorded only
+        ctx.class("ledger:allocations-left-live");
     }
 }
 
